@@ -1,15 +1,50 @@
 //! C19: NewlineCache observations.
-//! case line:  `<chunk> ; <chunk> ; ...` each chunk a list of decimal code points.
+//! case line:  `T <chunk> ; <chunk> ; ...` each chunk a list of decimal code points.
 //! result: `N <feedlen> | L <off> <line|-> <col|-> ... | S <s> <e> <st> <en>|P ...`
 //! over all char-boundary offsets / spans of the concatenated text, plus
 //! one out-of-range offset.
 use gvh::util::*;
 use cfgrammar::{NewlineCache, Span};
+use lrlex::{DefaultLexerTypes, LRNonStreamingLexerDef, LexerDef};
+use lrpar::{LexError, LexParseError, Lexer, NonStreamingLexer};
 use std::fmt::Write;
+
+/// NonStreamingLexer::{line_col, span_lines_str} and LexParseError::pp on the same
+/// text: one rule matching every character except 'X' (so an 'X' is a lexing error).
+fn lexer_queries(out: &mut String, text: &str, bounds: &[usize]) {
+    let def = LRNonStreamingLexerDef::<DefaultLexerTypes<u32>>::from_str("%%\n[^X] 'c'\n").unwrap();
+    let lexer = def.lexer(text);
+    for (i, &s) in bounds.iter().enumerate() {
+        for &e in &bounds[i..] {
+            let r = catch(std::panic::AssertUnwindSafe(|| lexer.line_col(Span::new(s, e))));
+            match r {
+                Ok(((l1, c1), (l2, c2))) => write!(out, " | LC {} {} {} {} {} {}", s, e, l1, c1, l2, c2).unwrap(),
+                Err(_) => write!(out, " | LC {} {} P", s, e).unwrap(),
+            }
+            let r = catch(std::panic::AssertUnwindSafe(|| lexer.span_lines_str(Span::new(s, e)).to_string()));
+            match r {
+                Ok(t) => write!(out, " | SL {} {} {}", s, e, gvh::common::hex(&t)).unwrap(),
+                Err(_) => write!(out, " | SL {} {} P", s, e).unwrap(),
+            }
+        }
+    }
+    for r in lexer.iter() {
+        if let Err(e) = r {
+            let off = e.span().start();
+            let lpe: LexParseError<u32, DefaultLexerTypes<u32>> = e.into();
+            let r = catch(std::panic::AssertUnwindSafe(|| lpe.pp(&lexer, &|_| None)));
+            match r {
+                Ok(m) => write!(out, " | PP {} {}", off, gvh::common::hex(&m)).unwrap(),
+                Err(_) => write!(out, " | PP {} P", off).unwrap(),
+            }
+        }
+    }
+}
 
 fn main() {
     gvh::quiet_panics();
     for_each_case(|line| {
+        let line = line.strip_prefix("T").unwrap_or(line);
         let chunks: Vec<String> = line.split(';').map(cps_to_string).collect();
         let text: String = chunks.concat();
         let r = catch(|| {
@@ -54,6 +89,7 @@ fn main() {
                 }
             }
         }
+        lexer_queries(&mut out, &text, &bounds);
         out
     });
 }
